@@ -20,6 +20,7 @@ PoolCore == {
   E("1e308", "huge", Lit(D("1e308")), {}), E("inf", "inf", InfE, {}), E("nan", "nan", Bin("-", InfE, InfE), {}),
   E("s_empty", "str-empty", Lit(S("")), {}), E("s_a", "str-alpha", Lit(S("a")), {}), E("s_12", "str-numeric", Lit(S("12")), {}), E("s_0", "str-numeric", Lit(S("0")), {}),
   E("wide", "wide", Bin("|", Bin("<<", Lit(N(1)), Lit(N(53))), Lit(N(1))), {}),   \* an int64 no double holds: 2^53 + 1
+  E("arrE", "arr", Arr(<<>>), {}), E("objE", "obj", Obj(<<>>, <<>>), {}),      \* two evaluations give two distinct empty containers
   E("arrA", "arr", Id("A"), {1}), E("arrB", "arr", Id("B"), {2}), E("objO", "obj", Id("O"), {3}),
   E("fn", "fn", Id("f"), {5}), E("nat", "nat", Id("len"), {}) }
 PoolMore == {
@@ -68,7 +69,7 @@ ChainCases ==
   \cup { [t |-> <<SPrint(Log(l1, Lit(N(0)), Log(l2, Lit(N(1)), Bin("==", Lit(N(2)), Lit(N(3))))))>>, c |-> "chain|" \o l1 \o "|" \o l2 \o "|right", key |-> "chain 0 " \o l1 \o " (1 " \o l2 \o " 2==3)"] : l1 \in {"and", "or"}, l2 \in {"and", "or"} }
 
 Cases == SetToSeq(BinCases \cup UnCases \cup RandCases \cup ChainCases)
-Programs == [i \in 1..Len(Cases) |-> LayoutProg(Cases[i].t, 1)]
+Programs == TLCEval([i \in 1..Len(Cases) |-> LayoutProg(Cases[i].t, 1)])
 FamProgOf(i) == Programs[i]
 Init == \E i \in 1..Len(Programs) : InitSem(i, <<>>, FALSE)
 Next == SemNext
